@@ -48,6 +48,15 @@ def judge(ck, cases, res, ans):
         bad = [k for k, v in flags.items() if v != "1"]
         if (n > 8 or kind == "dense") and not span_necessary(r):
             bad.append("span (vertices and generators do not span the same F2-space)")
+        # the collection-level accessors are the same reduction read another way
+        legv = sorted(v for m in r["morphs"] for leg in m["legs"] for v in leg)
+        depv = sorted(d for m in r["morphs"] for d in m["deps"])
+        if sorted(r["vertices"]) != legv:
+            bad.append("get_canonic_vertices() is not the set of vertices of the canonical graphs")
+        if sorted(r["dependents"]) != depv:
+            bad.append("get_dependents() is not the dependents of the canonical graphs")
+        if r["independents"] != [x for x in r["gens"] if x not in set(depv)]:
+            bad.append("get_independents() is not the held strings minus the dependents")
         if len(r["vertices"]) > 1 and len(set(g)) > len(r["vertices"]) or any(len(m["legs"]) > 2 for m in r["morphs"]):
             nt.add((n, tuple(sorted(set(g)))))
         if bad:
